@@ -75,6 +75,8 @@ def generate(run_seed: int, tier: str, *, faults: bool) -> dict:
                             "ensure_full_rank": rng.random() < 0.8}
     if rng.random() < 0.1:
         opts["cluster_by"] = "numerical_factors"
+    if rng.random() < 0.08:
+        opts["na_action"] = "ignore"
     dom = world.training_domain(u, f, train)
     structured = f["form"] != "simple"
     vars_used = world.variables_of(f)
@@ -127,15 +129,19 @@ def generate(run_seed: int, tier: str, *, faults: bool) -> dict:
         kind = core.weighted(rng, [("follow", 10), ("restart", 3), ("subset", 1 if not structured else 0), ("leaf", 1.5 if structured else 0),
                                    ("refit", 1), ("fault", 5 if faults else 0)])
         if kind in ("follow", "fault"):
-            pool = handles if kind == "follow" else [h for h in handles if h["kind"] in ("root", "restart")]
+            pool = handles if kind == "follow" else [h for h in handles if h["kind"] in ("root", "restart", "subset")]
             h = rng.choice(pool)
             op = {"op": "follow", "h": h["id"], "ids": sigma(), "entry": rng.choice(entries),
                   "index": core.weighted(rng, [("rid", 3), ("range", 2), ("str", 1)])}
+            if rng.random() < 0.2:
+                op["recat"] = rng.randrange(1000)
             if kind == "fault":
                 fl = gen_fault()
                 if fl is None:
                     continue
                 op["fault"] = fl
+                if rng.random() < 0.3:
+                    op["retry"] = True
             ops.append(op)
         elif kind == "restart":
             h = rng.choice(handles)
@@ -289,7 +295,7 @@ class Ref:
         try:
             with warnings.catch_warnings():
                 warnings.simplefilter("ignore")
-                mm = self.clone.get_model_matrix(frame)
+                mm = self.clone.get_model_matrix(frame, context=world.user_context())
             out = canon(mm, self.S)
         except Exception as e:  # noqa: BLE001
             out = e
@@ -364,16 +370,16 @@ def execute(scenario: dict, env: Any, *, prop: str) -> dict:
     def seed_np(step: int) -> None:
         np.random.seed(core.h64("np", sc["np_seed"], step) % (2**32))
 
-    def frame(ids: list[int], index: str, fault: Optional[dict] = None) -> Any:
-        return world.take(u, ids, container=sc["container"], index=index, mutate=fault)
+    def frame(ids: list[int], index: str, fault: Optional[dict] = None, recat: Optional[int] = None) -> Any:
+        return world.take(u, ids, container=sc["container"], index=index, mutate=fault, recat=recat)
 
     def call(spec_or_mm: Any, entry: str, data: Any, mm_for_sugar: Any = None) -> Any:
         if entry == "spec.gmm":
-            return spec_or_mm.get_model_matrix(data)
+            return spec_or_mm.get_model_matrix(data, context=world.user_context())
         if entry == "spec_sugar":
-            return model_matrix(spec_or_mm, data, context={})
+            return model_matrix(spec_or_mm, data, context=world.user_context())
         if entry == "mm_sugar":
-            return model_matrix(mm_for_sugar if mm_for_sugar is not None else spec_or_mm, data, context={})
+            return model_matrix(mm_for_sugar if mm_for_sugar is not None else spec_or_mm, data, context=world.user_context())
         raise ValueError(entry)
 
     try:
@@ -383,7 +389,7 @@ def execute(scenario: dict, env: Any, *, prop: str) -> dict:
         try:
             with warnings.catch_warnings():
                 warnings.simplefilter("ignore")
-                mm0 = model_matrix(world.spec_to_python(sc["formula"]["spec"]), tframe, context={}, **sc["opts"])
+                mm0 = model_matrix(world.spec_to_python(sc["formula"]["spec"]), tframe, context=world.user_context(), **sc["opts"])
             c0 = canon(mm0, Structured)
             if any((m["arr"].dtype != object and not np.all(np.isfinite(m["arr"]))) for _, m in c0):
                 raise ArithmeticError("non-finite training matrix")
@@ -445,7 +451,7 @@ def execute(scenario: dict, env: Any, *, prop: str) -> dict:
         with warnings.catch_warnings():
             warnings.simplefilter("ignore")
             try:
-                again = canon(spec0.get_model_matrix(tframe), Structured)
+                again = canon(spec0.get_model_matrix(tframe, context=world.user_context()), Structured)
             except Exception as e:  # noqa: BLE001
                 raise Violation("c04:refit-raised", {"error": repr(e)[:300]})
         for (p0, m_0), (p1, m_1) in zip(c0, again):
@@ -467,7 +473,7 @@ def execute(scenario: dict, env: Any, *, prop: str) -> dict:
                 if not ids:
                     continue
                 if fault is None:
-                    data = frame(ids, op["index"])
+                    data = frame(ids, op["index"], recat=op.get("recat"))
                     with warnings.catch_warnings():
                         warnings.simplefilter("ignore")
                         try:
@@ -501,7 +507,9 @@ def execute(scenario: dict, env: Any, *, prop: str) -> dict:
                     log.append([step, "follow", arr_digest(got)])
                     continue
                 # ------------------------------------------------------ faulty follow-up (C09 configuration)
-                cv = classify_var(atoms, fault["var"])
+                cv = classify_var(h.get("atoms", atoms), fault["var"])
+                if fault["var"] not in h.get("vars", [fault["var"]]):
+                    continue  # the subset spec does not use the faulted variable at all
                 fl = dict(fault)
                 if fault["kind"] == "level_gain":
                     exp0 = h["ref"].expected(ids)
@@ -514,7 +522,7 @@ def execute(scenario: dict, env: Any, *, prop: str) -> dict:
                         continue
                     rows = [j for j in cand if (ids[j] * 13 + fault.get("salt", 0)) % 3 == 0] or [cand[0]]
                     fl["rows"] = rows
-                data = frame(ids, op["index"], fl)
+                data = frame(ids, op["index"], fl, recat=op.get("recat"))
                 faults_seen += 1
                 bump(stats, "faults", fault["kind"])
                 last_touch[op["h"]] = ["fault"]
@@ -545,6 +553,19 @@ def execute(scenario: dict, env: Any, *, prop: str) -> dict:
                     if exact and not isinstance(err, FactorEncodingError):
                         raise Violation("c09:kind-flip-wrong-error", {"fault": fault, "var_roles": cv, "error": repr(err)[:300], "want": "FactorEncodingError"})
                     bump(stats, "probes", "kind_flip_rejected")
+                    if op.get("retry") and isinstance(h["spec"], ModelSpec):
+                        # a materializer the caller holds on to must keep refusing the bad data
+                        mat = h["spec"].get_materializer(data, context=world.user_context())
+                        outcomes = []
+                        for _ in range(2):
+                            try:
+                                outcomes.append(canon(mat.get_model_matrix(h["spec"]), Structured))
+                            except Exception as e2:  # noqa: BLE001
+                                outcomes.append(e2)
+                        if not all(isinstance(o, Exception) for o in outcomes):
+                            raise Violation("c09:kind-flip-not-rejected", {"fault": fault, "var_roles": cv, "why": "materializer retried after the rejection returned a matrix",
+                                                                           "outcomes": ["raised" if isinstance(o, Exception) else brief(o) for o in outcomes]})
+                        bump(stats, "probes", "held_materializer_retried_after_rejection")
                     continue
                 # level-change semantics (level_gain, or a flip of a variable only ever used under C()/hashed())
                 if err is not None:
@@ -586,6 +607,8 @@ def execute(scenario: dict, env: Any, *, prop: str) -> dict:
                       "depth": h["depth"] + 1, "born": step, "names": h["names"]}
                 if how in ("copy", "update"):
                     nh["shares_state_with"] = op["h"]
+                if "atoms" in h:
+                    nh["atoms"], nh["vars"] = h["atoms"], h["vars"]
                 handles[op["new"]] = nh
                 bump(stats, "faults", "restart:" + ("pickle" if how.startswith("pickle") else how))
                 last_touch[op["new"]] = ["restart"]
@@ -600,7 +623,7 @@ def execute(scenario: dict, env: Any, *, prop: str) -> dict:
                         with warnings.catch_warnings():
                             warnings.simplefilter("ignore")
                             try:
-                                outs.append(canon(s.get_model_matrix(data), Structured))
+                                outs.append(canon(s.get_model_matrix(data, context=world.user_context()), Structured))
                             except Exception as e:  # noqa: BLE001
                                 outs.append(e)
                     a, b = outs
@@ -626,7 +649,18 @@ def execute(scenario: dict, env: Any, *, prop: str) -> dict:
                 except Exception as e:  # noqa: BLE001
                     raise Violation("c04:subset-failed", {"terms": [str(t) for t in pick], "error": repr(e)[:300]})
                 names = list(sub.column_names)
-                handles[op["new"]] = {"spec": sub, "mm": None, "ref": Ref(pickle.loads(pickle.dumps(sub)), sc, Structured, subset_names=names, parent=h["ref"]),
+                def norm(x: Any) -> str:
+                    x = str(x).strip()
+                    if x.startswith("{") and x.endswith("}"):
+                        x = x[1:-1]
+                    return x.replace(" ", "").replace('"', "'").replace("`", "")
+
+                kept = {norm(fa.expr) for t in pick for fa in t.factors}
+                parent_exprs = {norm(fa.expr) for t in terms for fa in t.factors}
+                sub_atoms = [a for a in atoms if norm(a["expr"]) in kept]
+                # variables whose every use could be matched to a factor of the parent spec (others are not faulted on this handle)
+                unmatched = {v for a in atoms if norm(a["expr"]) not in parent_exprs for v in a["vars"]}
+                handles[op["new"]] = {"atoms": sub_atoms, "vars": sorted({v for a in sub_atoms for v in a["vars"]} - unmatched), "spec": sub, "mm": None, "ref": Ref(pickle.loads(pickle.dumps(sub)), sc, Structured, subset_names=names, parent=h["ref"]),
                                       "kind": "subset", "depth": h["depth"] + 1, "born": step, "names": [names], "shares_state_with": op["h"]}
                 last_touch[op["new"]] = ["restart"]
                 sig.append(["subset", len(pick), len(terms)])
@@ -648,7 +682,7 @@ def execute(scenario: dict, env: Any, *, prop: str) -> dict:
                 with warnings.catch_warnings():
                     warnings.simplefilter("ignore")
                     try:
-                        again = canon(h["spec"].get_model_matrix(tframe), Structured)
+                        again = canon(h["spec"].get_model_matrix(tframe, context=world.user_context()), Structured)
                     except Exception as e:  # noqa: BLE001
                         if prop == "C09":
                             continue
@@ -675,7 +709,7 @@ def execute(scenario: dict, env: Any, *, prop: str) -> dict:
                 with warnings.catch_warnings():
                     warnings.simplefilter("ignore")
                     try:
-                        got = canon(h["spec"].get_model_matrix(data), Structured)
+                        got = canon(h["spec"].get_model_matrix(data, context=world.user_context()), Structured)
                     except Exception as e:  # noqa: BLE001
                         if prop == "C09":
                             if faults_seen and _pristine_ok(pristine_blob, h, {"entry": "spec.gmm"}, data, call, Structured):
@@ -728,7 +762,7 @@ def _pristine_ok(blob: bytes, h: dict, op: dict, data: Any, call: Any, Structure
     with warnings.catch_warnings():
         warnings.simplefilter("ignore")
         try:
-            res = canon(clone.get_model_matrix(data), Structured)
+            res = canon(clone.get_model_matrix(data, context=world.user_context()), Structured)
         except Exception:  # noqa: BLE001
             return False if want is None else None
     if want is None:
